@@ -1138,6 +1138,28 @@ class C12(Property):
         "Flatland.EndToEnd.Proofs.exT_end_to_end",
         "Flatland.EndToEnd.Proofs.exNonPruning_differs",
         "Flatland.EndToEnd.Proofs.exCustom_differs",
+        # END TO END without hnodupB (k2): the bridge narrowB => HNodup (Proofs/Lemmas/EndToEndHNodup.lean)
+        "Flatland.Flat.Proofs.hnodup_perm",
+        "Flatland.Flat.Proofs.hnodup_reach",
+        "Flatland.Flat.Proofs.hnodup_flatten",
+        "Flatland.Flat.Proofs.hnodup_flatten_perm",
+        "Flatland.Flat.Proofs.hnodupB_complete",
+        "Flatland.EndToEnd.Proofs.fromFlat_formPairs_narrow",
+        "Flatland.EndToEnd.Proofs.hypsN_hnodup",
+        "Flatland.EndToEnd.Proofs.hypsN_hyps",
+        "Flatland.EndToEnd.Proofs.end_to_end_narrow_at",
+        "Flatland.EndToEnd.Proofs.end_to_end_narrow_partial",
+        "Flatland.EndToEnd.Proofs.end_to_end_narrow_total",
+        "Flatland.EndToEnd.Proofs.end_to_end_narrow_generator",
+        "Flatland.EndToEnd.Proofs.exT_hypsN",
+        "Flatland.EndToEnd.Proofs.exT_end_to_end_narrow",
+        "Flatland.EndToEnd.Proofs.exN_hypsN",
+        "Flatland.EndToEnd.Proofs.exN_end_to_end",
+        "Flatland.EndToEnd.Proofs.exArr2_only_narrow_fails",
+        "Flatland.EndToEnd.Proofs.exArr2_still_rebuilds",
+        "Flatland.EndToEnd.Proofs.exPrunedArr_hyps",
+        "Flatland.EndToEnd.Proofs.fromFlat_formPairs_stable",
+        "Flatland.EndToEnd.Proofs.exArr2_via_stable",
     ]
     extra_proof_modules = ["Proofs.EndToEndExamples"]
     generated_obligations = []
